@@ -3,6 +3,7 @@ mod cp437;
 mod eexec;
 mod lexer;
 mod rexec;
+mod sexec;
 mod sink;
 mod util;
 mod wexec;
@@ -18,6 +19,7 @@ fn main() {
         "wexec" => wexec::main_wexec(rest),
         "rexec" => rexec::main_rexec(rest),
         "eexec" => eexec::main_eexec(rest),
+        "sexec" => sexec::main_sexec(rest),
         "lex" => {
             let b = std::fs::read(&rest[0]).expect("read");
             let o = lexer::LexOpts { allow_trailing: true, ..Default::default() };
